@@ -28,6 +28,7 @@ type verifSide struct {
 	pk        bool
 	fk        bool
 	fkDelete  int // 0 "", 1 NO ACTION, 2 CASCADE
+	fkCols    int // composite key: 0 (b,c)->(id,id2), 1 child columns swapped, 2 parent columns swapped
 	chk       bool
 	chkExpr   string
 	strict    bool
@@ -95,6 +96,7 @@ Rest:
 	s.fk = verifChoice(tag+"_fk", 2) == 1
 	if s.fk {
 		s.fkDelete = verifChoice(tag+"_fk_delete", 3)
+		s.fkCols = verifChoice(tag+"_fk_cols", 3)
 	}
 	s.chk = verifChoice(tag+"_chk", 2) == 1
 	if s.chk {
@@ -107,7 +109,8 @@ Rest:
 func (s verifSide) table(sch *schema.Schema, ref *schema.Table, perm bool) *schema.Table {
 	t := schema.NewTable("t").SetSchema(sch)
 	b := schema.NewIntColumn("b", "integer")
-	t.AddColumns(b)
+	c2 := schema.NewIntColumn("c", "integer")
+	t.AddColumns(b, c2)
 	if s.a.present {
 		var c *schema.Column
 		switch s.a.family {
@@ -144,7 +147,15 @@ func (s verifSide) table(sch *schema.Schema, ref *schema.Table, perm bool) *sche
 		t.SetPrimaryKey(schema.NewPrimaryKey(b))
 	}
 	if s.fk {
-		t.AddForeignKeys(schema.NewForeignKey("f").AddColumns(b).SetRefTable(ref).AddRefColumns(ref.Columns[0]).SetOnDelete(verifActions[s.fkDelete]))
+		// a composite key: the order of its (child, parent) column pairs matters
+		cols, refs := []*schema.Column{b, c2}, []*schema.Column{ref.Columns[0], ref.Columns[1]}
+		switch s.fkCols {
+		case 1:
+			cols = []*schema.Column{c2, b}
+		case 2:
+			refs = []*schema.Column{ref.Columns[1], ref.Columns[0]}
+		}
+		t.AddForeignKeys(schema.NewForeignKey("f").AddColumns(cols...).SetRefTable(ref).AddRefColumns(refs...).SetOnDelete(verifActions[s.fkDelete]))
 	}
 	if s.chk {
 		t.AddChecks(schema.NewCheck().SetName("k").SetExpr(s.chkExpr))
@@ -219,8 +230,18 @@ func verifExpected(f, t verifSide) []verifWant {
 		if ta == 0 {
 			ta = 1
 		}
+		var k schema.ChangeKind
 		if fa != ta {
-			w = append(w, verifWant{"modify-fk", schema.ChangeDeleteAction})
+			k |= schema.ChangeDeleteAction
+		}
+		if (f.fkCols == 1) != (t.fkCols == 1) {
+			k |= schema.ChangeColumn
+		}
+		if (f.fkCols == 2) != (t.fkCols == 2) {
+			k |= schema.ChangeRefColumn
+		}
+		if k != 0 {
+			w = append(w, verifWant{"modify-fk", k})
 		}
 	}
 	switch {
@@ -291,7 +312,7 @@ var verifSkippable = []struct {
 
 func verifC02(group int, withSkip bool) {
 	sch := schema.New("main")
-	ref := schema.NewTable("r").SetSchema(sch).AddColumns(schema.NewIntColumn("id", "integer"))
+	ref := schema.NewTable("r").SetSchema(sch).AddColumns(schema.NewIntColumn("id", "integer"), schema.NewIntColumn("id2", "integer"))
 	fs, ts := verifSideOf("f", group), verifSideOf("t", group)
 	from, to := fs.table(sch, ref, false), ts.table(sch, ref, group == 3 && verifChoice("permute", 2) == 1)
 	// The CLI always diffs in normalized mode (cmdapi diffOptions).
